@@ -12,7 +12,12 @@ import PromModel.Promql.EvalTotal
 
   judge : THE PROPERTY ITSELF on the implementation's outputs, independent of the model:
           (1) no query's class is `INTERNAL:…` (an error text with "unexpected error", "runtime error", "unhandled",
-              "invalid memory", an impossible-branch panic text, or a panic recovered by the harness);
+              "invalid memory", an impossible-branch panic text, or a panic recovered by the harness).  The verdict carries
+              `kind=paren-string-arg-in-agg-param` / `kind=paren-matrix-arg-in-agg-param` (finding C33-F3) iff the class is
+              exactly the failed type assertion on `*parser.StringLiteral` / `*parser.MatrixSelector` (or the
+              matrix-selector range-evaluation panic) AND the query text has a parenthesised string literal /
+              matrix selector as a call argument (or count_values label) below the parameter of an aggregation;
+              everything else is `kind=other`;
           (2) the serial result equals every concurrent result (`conc=same`, or `na` for errors).  A difference is
               classified `kind=order-sensitive-aggregation` (finding F12, Go-map order) exactly as C27's judge does:
               (a) the query contains topk/bottomk/limitk over a non-selector operand, same element counts and (except
@@ -28,7 +33,9 @@ import PromModel.Promql.EvalTotal
           storage with a unit kernel (must not be `internal`: otherwise `model-internal`).  A DATA-DEPENDENT user error
           observed by the harness (`obs=`) is echoed iff the query contains a node that can raise that class
           (vector matching, name-dropping operations, k/ratio parameters, count_values, label_replace/label_join, …);
-          any other class is a mismatch.  `conc=` is `same` for results and `na` for errors.
+          any other class is a mismatch.  `conc=` is `na` for errors; for results it is the OBSERVED column (default
+          `same`): a map-order / schedule dependent observable that only the judge evaluates.  An `INTERNAL:` class is
+          echoed only for the listed finding C33-F3 (shape + exact class, `internalKind`).
 -/
 namespace Prom.TotalSuite
 open Prom.Promql
@@ -101,6 +108,55 @@ def hasExt : Ast → Bool
 def isCompound : Ast → Bool
   | .agg .. | .call .. | .bin .. | .un .. | .sub .. => true
   | _ => false
+
+/-! ### finding C33-F3: the parameter of an aggregation is not preprocessed
+
+`preprocessExprHelper` (promql/engine.go) handles `*parser.AggregateExpr` by un-parenthesising `n.Expr` and `n.Param` and
+then descends into `n.Expr` ONLY.  Nothing below the parameter is preprocessed, so the parentheses around the arguments of
+a call (and around the parameter of an inner aggregation) survive there, although the evaluator relies on their removal:
+`stringFromArg` / `funcHistogramQuantiles` / the count_values case type-assert `*parser.StringLiteral`, and the Call case
+recognises its range-vector argument by a type assertion on `*parser.MatrixSelector`. -/
+
+def isStr : Ast → Bool
+  | .str _ => true
+  | _ => false
+
+def isMatSel : Ast → Bool
+  | .mat .. => true
+  | _ => false
+
+/-- `( … ( x ) … )` with at least one pair of parentheses and `p x` -/
+def isParenOf (p : Ast → Bool) : Ast → Bool
+  | .paren e => p (stripP e)
+  | _ => false
+
+/-- a call with a parenthesised string-literal argument, or count_values with a parenthesised label parameter -/
+def parenStrArgNode : Ast → Bool
+  | .call _ args => args.any (isParenOf isStr)
+  | .agg op _ _ p _ => op == bs "count_values" && isParenOf isStr p
+  | _ => false
+
+/-- a call with a parenthesised matrix-selector argument -/
+def parenMatArgNode : Ast → Bool
+  | .call _ args => args.any (isParenOf isMatSel)
+  | _ => false
+
+/-- some node satisfying `p` lies below the PARAMETER of some aggregation -/
+def inAggParam (p : Ast → Bool) (e : Ast) : Bool :=
+  anyNode (fun x => match x with | .agg _ _ _ pa _ => anyNode p pa | _ => false) e
+
+def internalStrClass : String :=
+  "INTERNAL:unexpected_error:_interface_conversion:_parser.Expr_is_*parser.ParenExpr,_not_*parser.StringLiteral"
+
+def internalMatClasses : List String :=
+  ["INTERNAL:unexpected_error:_interface_conversion:_parser.Expr_is_*parser.ParenExpr,_not_*parser.MatrixSelector",
+   "INTERNAL:cannot_do_range_evaluation_of_matrix_selector"]
+
+/-- classification of an internal-error class by the shape of the query (finding C33-F3 or not) -/
+def internalKind (ast : Ast) (cls : String) : String :=
+  if cls = internalStrClass && inAggParam parenStrArgNode ast then "paren-string-arg-in-agg-param"
+  else if internalMatClasses.contains cls && inAggParam parenMatArgNode ast then "paren-matrix-arg-in-agg-param"
+  else "other"
 
 /-- user-error classes that a query with this tree can raise at evaluation time -/
 def allowedClasses (eng : String) (e : Ast) : List String :=
@@ -241,6 +297,12 @@ def stripObs (ts : List String) : List String := ts.filter fun t => !t.startsWit
 
 def obsClass (o : String) : String := (o.splitOn ";conc=").headD ""
 
+/-- the observed comparison column, only when the observed class is a result (`ok:…`) -/
+def obsConc (o : String) : Option String :=
+  match o.splitOn ";conc=" with
+  | [cls, cmp] => if cls.startsWith "ok:" && cmp != "na" then some cmp else none
+  | _ => none
+
 /-- the model's line for one query -/
 def predict (eng : String) (range : Bool) (hexq : String) (obs : Option String) : String :=
   match bytesOfHex? hexq with
@@ -269,7 +331,13 @@ def predict (eng : String) (range : Bool) (hexq : String) (obs : Option String) 
         if durErr then "user-error:duration;conc=na"
         else if eng = "cancel" then "user-error:canceled;conc=na"
         else if oc.startsWith "user-error:" && (allowedClasses eng ast).contains (oc.drop 11).toString then oc ++ ";conc=na"
-        else "ok:" ++ (if range then "matrix" else vtName τ) ++ ";conc=same"
+        -- finding C33-F3 (data-dependent like the user errors: an earlier error may pre-empt it): echoed iff the query
+        -- has the shape that raises exactly this class
+        else if oc.startsWith "INTERNAL:" && internalKind ast oc != "other" then oc ++ ";conc=na"
+        -- the serial-vs-concurrent comparison of a successful query is a property of the schedule and of Go's map
+        -- iteration order (finding F12), which no function of the op line can predict: the column is echoed and the
+        -- JUDGE alone decides on it (clause 2)
+        else "ok:" ++ (if range then "matrix" else vtName τ) ++ ";conc=" ++ (obs.bind obsConc).getD "same"
 
 def modelLine (line : String) : String :=
   let all := toks line
@@ -303,6 +371,12 @@ def classifyDiff (hexq : String) (cmp : String) : String :=
       if tie || acc then "order-sensitive-aggregation" else "other"
     | _ => "other"
 
+/-- classification of an internal error (finding C33-F3 or not); an unparsable text is never the finding -/
+def classifyInternal (hexq : String) (cls : String) : String :=
+  match (bytesOfHex? hexq).bind (parse allOpts) with
+  | none => "other"
+  | some ast => internalKind ast cls
+
 def judgeLine (op out : String) : Option String :=
   let ts := stripObs (toks op)
   let q : Option String :=
@@ -316,13 +390,15 @@ def judgeLine (op out : String) : Option String :=
     if out = "bad-op" then none else
     match out.splitOn ";conc=" with
     | [cls, cmp] =>
-      if cls.startsWith "INTERNAL:" then some s!"violation internal-error class={cls} op: {" ".intercalate ts}"
+      if cls.startsWith "INTERNAL:" then some s!"violation internal-error kind={classifyInternal hx cls} class={cls} op: {" ".intercalate ts}"
       else if !(cls.startsWith "ok:" || cls.startsWith "user-error:") then some s!"violation malformed-output out={out} op: {" ".intercalate ts}"
       else if cmp = "same" || cmp = "na" then none
       else some s!"violation conc-differs kind={classifyDiff hx cmp} cmp={cmp} class={cls} op: {" ".intercalate ts}"
     | _ => some s!"violation malformed-output out={out} op: {" ".intercalate ts}"
 
-def isKnownKind (v : String) : Bool := (v.splitOn " kind=order-sensitive-aggregation ").length > 1
+def isKnownKind (v : String) : Bool :=
+  [" kind=order-sensitive-aggregation ", " kind=paren-string-arg-in-agg-param ", " kind=paren-matrix-arg-in-agg-param "].any
+    fun k => (v.splitOn k).length > 1
 
 def judge (ops outs : List String) : String :=
   let vs := (ops.zip outs).filterMap fun p => judgeLine p.1 p.2
